@@ -102,6 +102,16 @@ add("C15", "TLC exhaustive on CGPair.tla (eager and compiled control skeletons o
     "the returned solution (true residual, energy vs start, steepest-descent step, agreement of the variants).",
     TRUST + "predicates within 64 ulp of their threshold are left to TLC; tolerances rtol 1e-9 (agreement), 1e-6 (residual).")
 
+add("C17", "TLC exhaustive on NewtonPair.tla (eager and compiled Newton-CG bookkeeping on the same environment) + trace validation of real runs (NewtonTrace.tla) with harness-computed ground truth; trust-region energy law on the same objectives",
+    "The line search over nine trial step lengths (reset after the 6th failure, abort after the 9th), the convergence tests and the iteration limit "
+    "of the eager and of the compiled Newton-CG are transcribed side by side (NewtonPair.tla); TLC checks for every environment sequence (maxiter 3/4, "
+    "miniter 0/1, with/without absdelta) that both agree on status, iteration count and accepted steps, that only non-raising trials are accepted and "
+    "that an iteration with a lowering trial never ends in the abort status. Both real solvers and the trust-region solver run on trigonometric, "
+    "quartic, Rosenbrock-like and quadratic objectives on pytree positions from starts with positive, zero and negative curvature; every objective "
+    "evaluation is recorded, segmented into iterations and validated by NewtonTrace.tla together with ground truth (final energy vs start, g.Hg at each "
+    "iteration start and the direction of the first trial, progress, agreement of the variants).",
+    TRUST + "agreement tolerance rtol 1e-7.")
+
 
 def main():
     props = [json.loads(l) for l in open(os.path.join(HERE, "properties.jsonl"))]
